@@ -218,65 +218,84 @@ Section Interp.
     | _, _ => None
     end.
 
-  Fixpoint exec (fuel : nat) (en : env) (ss : list stmt) {struct fuel} : outcome :=
+  (* truthiness of a condition and whether evaluating it raises, computed as booleans so that
+     [a and b] / [a or b] / [not a] keep Python's short-circuit meaning without building an
+     intermediate value *)
+  Fixpoint cond_val (en : env) (e : expr) : bool :=
+    match e with
+    | EAnd a b => cond_val en a && cond_val en b
+    | EOr a b => cond_val en a || cond_val en b
+    | ENot a => negb (cond_val en a)
+    | _ => truthy (eval en e)
+    end.
+  Fixpoint cond_err (en : env) (e : expr) : bool :=
+    match e with
+    | EAnd a b => cond_err en a || (cond_val en a && cond_err en b)
+    | EOr a b => cond_err en a || (negb (cond_val en a) && cond_err en b)
+    | ENot a => cond_err en a
+    | _ => is_err (eval en e)
+    end.
+
+  (* continuation-passing: [k] receives the outcome of the statement list *)
+  Fixpoint exec (fuel : nat) (en : env) (ss : list stmt) (k : outcome -> outcome) {struct fuel} : outcome :=
     match fuel with
-    | O => OFuel
+    | O => k OFuel
     | S f =>
       match ss with
-      | [] => ONormal en
+      | [] => k (ONormal en)
       | s :: rest =>
         match s with
         | SAssign t e =>
-            match eval en e with VErr => ORaise | v => exec f (set_var t v en) rest end
+            let v := eval en e in if is_err v then k ORaise else exec f (set_var t v en) rest k
         | SAssignTuple ts e =>
             match eval en e with
-            | VTuple vs => if any_err vs then ORaise else
-                           match set_tuple ts vs en with Some en' => exec f en' rest | None => ORaise end
-            | _ => ORaise
+            | VTuple vs => if any_err vs then k ORaise else
+                           match set_tuple ts vs en with Some en' => exec f en' rest k | None => k ORaise end
+            | _ => k ORaise
             end
         | SSliceAssign t lo hi e =>
             match lookup t en, eval en e with
             | VBytes b, VBytes v =>
                 match opt_int (match lo with Some x => Some (eval en x) | None => None end) 0,
                       opt_int (match hi with Some x => Some (eval en x) | None => None end) (len b) with
-                | Some l, Some h => exec f (set_var t (VBytes (py_splice b l h v)) en) rest
-                | _, _ => ORaise
+                | Some l, Some h => exec f (set_var t (VBytes (py_splice b l h v)) en) rest k
+                | _, _ => k ORaise
                 end
-            | _, _ => ORaise
+            | _, _ => k ORaise
             end
         | SAug t op e =>
-            match bin op (lookup t en) (eval en e) with VErr => ORaise | v => exec f (set_var t v en) rest end
+            let v := bin op (lookup t en) (eval en e) in
+            if is_err v then k ORaise else exec f (set_var t v en) rest k
         | SIf c th el =>
-            match eval en c with
-            | VErr => ORaise
-            | v => if truthy v then exec f en (th ++ rest) else exec f en (el ++ rest)
-            end
+            if cond_err en c then k ORaise
+            else if cond_val en c then exec f en (th ++ rest) k else exec f en (el ++ rest) k
         | SWhile c body =>
-            match eval en c with
-            | VErr => ORaise
-            | v => if truthy v then exec f en (body ++ s :: rest) else exec f en rest
-            end
-        | SReturn e => match eval en e with VErr => ORaise | v => OReturn en v end
-        | SExpr e => match eval en e with VErr => ORaise | _ => exec f en rest end
-        | SAssert c => match eval en c with VErr => ORaise | v => if truthy v then exec f en rest else ORaise end
-        | SRaise => ORaise
-        | SPass => exec f en rest
+            if cond_err en c then k ORaise
+            else if cond_val en c then exec f en (body ++ s :: rest) k else exec f en rest k
+        | SReturn e => let v := eval en e in if is_err v then k ORaise else k (OReturn en v)
+        | SExpr e => if is_err (eval en e) then k ORaise else exec f en rest k
+        | SAssert c =>
+            if cond_err en c then k ORaise else if cond_val en c then exec f en rest k else k ORaise
+        | SRaise => k ORaise
+        | SPass => exec f en rest k
         | SCall target fname args =>
             let vs := map (eval en) args in
-            if any_err vs then ORaise else
+            if any_err vs then k ORaise else
             match meth fname with
-            | None => ORaise
+            | None => k ORaise
             | Some (ps, body) =>
-                match exec f (bind ps vs (self_part en)) body with
-                | ONormal en' =>
-                    let en'' := merge_self en' en in
-                    exec f (match target with Some t => set_var t VNone en'' | None => en'' end) rest
-                | OReturn en' v =>
-                    let en'' := merge_self en' en in
-                    exec f (match target with Some t => set_var t v en'' | None => en'' end) rest
-                | ORaise => ORaise
-                | OFuel => OFuel
-                end
+                exec f (bind ps vs (self_part en)) body
+                  (fun o =>
+                     match o with
+                     | ONormal en' =>
+                         let en'' := merge_self en' en in
+                         exec f (match target with Some t => set_var t VNone en'' | None => en'' end) rest k
+                     | OReturn en' v =>
+                         let en'' := merge_self en' en in
+                         exec f (match target with Some t => set_var t v en'' | None => en'' end) rest k
+                     | ORaise => k ORaise
+                     | OFuel => k OFuel
+                     end)
             end
         end
       end
@@ -284,7 +303,7 @@ Section Interp.
 
   (* call a function: bind parameters in the given initial environment (object state) *)
   Definition call (fuel : nat) (init : env) (ps : list string) (body : list stmt) (vs : list val) : outcome :=
-    exec fuel (bind ps vs init) body.
+    exec fuel (bind ps vs init) body (fun o => o).
 
   (* the value a call produces: the returned value, None for falling off the end, VErr for an
      exception (or running out of fuel, which the theorems exclude by giving enough) *)
